@@ -41,7 +41,7 @@ def onEvent (s : St) (_ : Book) (o : Obs) (_ : Book) : St × List Viol :=
   | .recover => ({ s with recovered := true, done := [] }, [])
   | _ => (s, [])
 
-def atEnd (s : St) (b : Book) (tr : List Obs) (e : EndInfo) : List Viol :=
+def atEnd (objMode : Bool) (s : St) (b : Book) (tr : List Obs) (e : EndInfo) : List Viol :=
   if !e.quiescent || e.crashed || b.crashed then [] else
   let fas := tr.filterMap (fun o => match o with | .fadapter _ p u a => some (p, u, a) | _ => none)
   match fas with
@@ -58,12 +58,14 @@ def atEnd (s : St) (b : Book) (tr : List Obs) (e : EndInfo) : List Viol :=
     let running := (finalOf tr).map (·.status == some .running) |>.getD false
     let v2 := if running && !s.faults && !pending.isEmpty then [s!"worker running and quiescent but the adapter still holds pending items {pending}"] else []
     let stuckUnacked := unacked.filter (fun k => k != "bad" && s.accepted.contains k)
-    let v3 := if running && !s.faults && !stuckUnacked.isEmpty then [s!"items {stuckUnacked} were delivered and processed but never acknowledged"] else []
+    -- (not for a custom in-memory queue that also acknowledges: the library acknowledges only jobs it re-created from bytes,
+    --  and the property asks for "at most once", see DESIGN II.6)
+    let v3 := if running && !objMode && !s.faults && !stuckUnacked.isEmpty then [s!"items {stuckUnacked} were delivered and processed but never acknowledged"] else []
     v1 ++ v2 ++ v3
 
-def check (_ : Params) (tr : List Obs) (e : EndInfo) : List Viol :=
+def check (p : Params) (tr : List Obs) (e : EndInfo) : List Viol :=
   let (s, b, vs) := foldCheck ({} : St) onEvent tr
-  vs ++ atEnd s b tr e
+  vs ++ atEnd (p.queues.contains "ackq") s b tr e
 end C11
 
 -- ===================================================================== C12 (worker level)
